@@ -256,9 +256,10 @@ def r2_tables(ctx, prog):
                 if pl["p"] and re.search(r"locale::VarInfo$", re.sub(r"^&(mut )?", "", bb.local_ty(pl["l"]))) and pl["p"][-1] in (".1",) and pl["p"][0] == "*":
                     writers.append(name)
             for i, t in bb.calls():
-                if re.search(r"Option::<T>::replace$", callee_name(t) or ""):
-                    a = op_place(t["args"][0])
-                    if a and M.derives_from_field(bb, prog, a["l"], "locale::VarInfo", "range_count"):
+                # any call handed a `&mut` to the field can write it (Option::replace, mem::replace, Option::insert, ..)
+                for arg in t["args"]:
+                    a = op_place(arg)
+                    if a and not a["p"] and bb.local_ty(a["l"]).startswith("&mut") and M.derives_from_field(bb, prog, a["l"], "locale::VarInfo", "range_count"):
                         writers.append(name)
         writers = sorted(set(writers))
         if writers == ["leptos_i18n_parser::parse_locales::locale::InterpolationKeys::push_count"]:
